@@ -36,8 +36,10 @@ GRIDS = {
 GRIDS['Axum'] = [g * 1000 for g in GRIDS['A']]      # in um these are the same numbers as 'A' in nm: equal arrays, different spectra
 GRIDS['signed'] = GRIDS['nested']                      # same grid, values of both signs
 GRIDS['adjacent'] = [710, 760, 810, 860]              # starts 10 nm above the end of 'A': a gap smaller than either step
+GRIDS['nonuni4'] = [400, 420, 460, 700]              # as many samples as the 100 nm grid over its range, but elsewhere
+GRIDS['u4'] = [400, 500, 600, 700]
 GRIDS['shifted'] = [420, 520, 620, 720]              # union span / step is not an integer
-PAIRS = [('A', 'signed'), ('A', 'adjacent'), ('A', 'shifted'), ('intA', 'nested'), ('intA', 'intnested'), ('A', 'same'), ('A', 'nested'), ('A', 'partial'), ('A', 'disjoint'), ('A', 'nonuniform'), ('nonuniform', 'nested'),
+PAIRS = [('A', 'signed'), ('A', 'adjacent'), ('nonuni4', 'u4'), ('u4', 'nonuni4'), ('A', 'shifted'), ('intA', 'nested'), ('intA', 'intnested'), ('A', 'same'), ('A', 'nested'), ('A', 'partial'), ('A', 'disjoint'), ('A', 'nonuniform'), ('nonuniform', 'nested'),
          ('nested', 'A'), ('partial', 'nonuniform')]
 
 
@@ -469,7 +471,7 @@ def t_scalar(arg, acc):
 
 
 def run(tier, seed, acc, procs=None):
-    pairs = PAIRS if tier != 'quick' else PAIRS[:11]
+    pairs = PAIRS if tier != 'quick' else PAIRS[:13]
     tasks = [('t_pair', {'tier': tier, 'seed': seed, 'pair': list(p), 'op': o}) for p in pairs for o in OPS]
     tasks.append(('t_scalar', {'seed': seed}))
     acc.states += 1
